@@ -4,15 +4,7 @@
 (* DESIGN.md 3.12 / section 10): `aldor -Gloop' reads lines until          *)
 (* scanIsContinued (scan.c) says that what it has read is complete; that   *)
 (* chunk is one step of Repl.tla.  scanIsContinued is a small machine over *)
-(* static variables; this module is its transcription:                     *)
-(*                                                                         *)
-(*   braces      unmatched ( and { seen so far (never negative between     *)
-(*               lines: a surplus closer resets it)                        *)
-(*   defining    the first line ended in `==': every following line that   *)
-(*               starts with white space belongs to the definition         *)
-(*   instr, esc  inside a string literal / after the escape character      *)
-(*   (topLine is initialised to true and never cleared in scan.c, so it    *)
-(*   does not appear.)                                                     *)
+(* static variables; its transcription is the module ReplScan.             *)
 (*                                                                         *)
 (* A record of the input file LINES (gen/replhist.py) is one session text: *)
 (*   lines : the lines as sequences of character codes (with the newline)  *)
@@ -27,7 +19,7 @@
 (* results (implementation-shaped: reported as drift, never as a           *)
 (* violation).                                                             *)
 (***************************************************************************)
-EXTENDS Naturals, Integers, Sequences, SequencesExt, TLC, Json, IOUtils
+EXTENDS ReplScan, TLC, Json, IOUtils
 
 Recs == ndJsonDeserialize(IOEnv.LINES)
 
@@ -39,44 +31,6 @@ VARIABLES rid,     \* which record
 lvars == <<rid, ln, sc, cuts, agree>>
 
 R == Recs[rid]
-
-NL == 10  SP == 32  TAB == 9  HASH == 35  USCORE == 95  DQ == 34
-LPAR == 40  RPAR == 41  LBRACE == 123  RBRACE == 125  SEMI == 59  EQ == 61
-
-Sc0 == [braces |-> 0, defining |-> FALSE, instr |-> FALSE, esc |-> FALSE]
-
-(* one character of the line; acc = [braces, instr, esc, semi, deq], nxt = the following character (0 at the end) *)
-Char(acc, c, nxt) ==
-  IF acc.esc THEN [acc EXCEPT !.esc = FALSE]
-  ELSE IF acc.instr
-       THEN IF c = USCORE THEN [acc EXCEPT !.esc = TRUE]
-            ELSE IF c = DQ THEN [acc EXCEPT !.instr = FALSE]
-            ELSE acc
-  ELSE CASE c = USCORE -> [acc EXCEPT !.esc = TRUE]
-         [] c = DQ     -> [acc EXCEPT !.instr = TRUE, !.deq = FALSE]
-         [] c \in {LPAR, LBRACE} -> [acc EXCEPT !.braces = @ + 1]
-         [] c \in {RPAR, RBRACE} -> [acc EXCEPT !.braces = @ - 1]
-         [] c = SEMI   -> [acc EXCEPT !.semi = TRUE]
-         [] c = EQ     -> IF nxt = EQ THEN [acc EXCEPT !.deq = TRUE] ELSE acc
-         [] c \in {SP, NL} -> acc
-         [] OTHER      -> [acc EXCEPT !.deq = FALSE]
-
-(* scanIsContinued(line): [cont |-> result, s |-> state afterwards] *)
-IsContinued(s, line) ==
-  IF line[1] = HASH /\ s.braces = 0 THEN [cont |-> FALSE, s |-> s]
-  ELSE IF line[1] = NL THEN [cont |-> TRUE, s |-> s]
-  ELSE
-    LET def0 == IF line[1] \notin {SP, NL, TAB} THEN FALSE ELSE s.defining
-        n    == Len(line)
-        a0   == [braces |-> s.braces, instr |-> s.instr, esc |-> s.esc, semi |-> FALSE, deq |-> FALSE]
-        a    == FoldLeft(LAMBDA acc, i : Char(acc, line[i], IF i < n THEN line[i + 1] ELSE 0), a0, [i \in 1..n |-> i])
-    IN IF a.braces < 0
-       THEN [cont |-> FALSE, s |-> [braces |-> 0, defining |-> def0, instr |-> a.instr, esc |-> a.esc]]
-       ELSE LET def1 == def0 \/ a.deq
-                s1   == [braces |-> a.braces, defining |-> def1, instr |-> a.instr, esc |-> a.esc]
-            IN IF def1 THEN [cont |-> TRUE, s |-> s1]
-               ELSE IF a.braces > 0 \/ a.instr THEN [cont |-> TRUE, s |-> s1]
-               ELSE [cont |-> FALSE, s |-> s1]
 
 HasReal == "real" \in DOMAIN R
 
